@@ -40,6 +40,10 @@ func TestRaceAccessClassification(t *testing.T) {
 	if accessInHarness(driverRead) {
 		t.Fatal("copy into the caller's buffer inside simConn.Read classified as harness access")
 	}
+	driverWrite := []string{"runtime.slicecopy", "verifsim.(*simMaster).onClientBytes", "verifsim.(*simConn).Write", "github.com/Breeze0806/mysql.(*mysqlConn).writePacket"}
+	if accessInHarness(driverWrite) {
+		t.Fatal("the simulated master's copy out of the buffer passed to simConn.Write classified as harness access")
+	}
 	hook := []string{"verifsim.(*Run).onConsumed", "verifsim.(*simConn).Read", "github.com/Breeze0806/mysql.(*buffer).fill"}
 	if !accessInHarness(hook) {
 		t.Fatal("harness hook called from simConn.Read not classified as harness access")
